@@ -41,9 +41,73 @@ pub enum FaultKind {
     LoadErrorThenOkStartEnd,
     /// (loads) a warning, then an error, then a warning, then `<ok/>`
     LoadWarnErrorWarnOk,
+    /// a well-formed, correctly numbered reply that acknowledges nothing: for a load
+    /// `<load-configuration-results><load-error-count>0</load-error-count></...>` (no `<ok/>`),
+    /// for operations answered with `<ok/>` or `<data>` an empty `<rpc-reply>`; for the Junos
+    /// operations whose positive reply *is* the empty reply (open/close-configuration) like
+    /// `RpcError`
+    NoAck,
+    /// (loads) an empty `<load-configuration-results>` element
+    LoadEmptyResults,
+    /// (loads) results holding one warning, `<load-error-count>1`, and no `<ok/>`
+    LoadWarningNoOk,
+    /// (loads) a results element generated from the reply grammar that is **not** a positive
+    /// acknowledgement (it holds an error-severity rpc-error, or no `<ok/>` at all); see
+    /// [`load_shape`]. Elsewhere like `RpcError`
+    LoadShape(u16),
 }
 
-pub const FAULT_KINDS: [FaultKind; 11] = [
+#[derive(Debug, Clone, Copy, PartialEq, Eq)]
+pub enum ShapeItem {
+    Warning,
+    Error,
+    Ok,
+    OkStartEnd,
+    Count(usize),
+}
+
+/// Decode a shape code: up to four items of 3 bits each (0 = nothing, 1 = warning, 2 = error,
+/// 3 = `<ok/>`, 4 = `<ok></ok>`, 5..7 = nothing), then 3 bits for a `<load-error-count>` (0 = none,
+/// 1 = the number of rpc-errors, 2..=5 = the literal 0..=3, else none) appended after the items
+/// (bit 15: placed first instead). A shape that would be a positive acknowledgement (an ok and no
+/// error-severity rpc-error) gets an error appended, so every shape is a failed load by
+/// construction.
+pub fn load_shape(code: u16) -> Vec<ShapeItem> {
+    let mut v = Vec::new();
+    for i in 0..4 {
+        match (code >> (3 * i)) & 7 {
+            1 => v.push(ShapeItem::Warning),
+            2 => v.push(ShapeItem::Error),
+            3 => v.push(ShapeItem::Ok),
+            4 => v.push(ShapeItem::OkStartEnd),
+            _ => {}
+        }
+    }
+    let has_ok = v.iter().any(|i| matches!(i, ShapeItem::Ok | ShapeItem::OkStartEnd));
+    let has_err = v.iter().any(|i| matches!(i, ShapeItem::Error));
+    if has_ok && !has_err {
+        v.push(ShapeItem::Error);
+    }
+    let errs = v
+        .iter()
+        .filter(|i| matches!(i, ShapeItem::Warning | ShapeItem::Error))
+        .count();
+    let count = match (code >> 12) & 7 {
+        1 => Some(errs),
+        c @ 2..=5 => Some(c as usize - 2),
+        _ => None,
+    };
+    if let Some(c) = count {
+        if code & 0x8000 != 0 {
+            v.insert(0, ShapeItem::Count(c));
+        } else {
+            v.push(ShapeItem::Count(c));
+        }
+    }
+    v
+}
+
+pub const FAULT_KINDS: [FaultKind; 14] = [
     FaultKind::RpcError,
     FaultKind::Truncated,
     FaultKind::WrongRoot,
@@ -55,6 +119,9 @@ pub const FAULT_KINDS: [FaultKind; 11] = [
     FaultKind::LoadErrorThenOk,
     FaultKind::LoadErrorThenOkStartEnd,
     FaultKind::LoadWarnErrorWarnOk,
+    FaultKind::NoAck,
+    FaultKind::LoadEmptyResults,
+    FaultKind::LoadWarningNoOk,
 ];
 
 #[derive(Debug, Clone, PartialEq, Eq, Serialize, Deserialize)]
@@ -234,7 +301,11 @@ impl FakeJunos {
                 k @ (FaultKind::LoadResultsError
                 | FaultKind::LoadErrorThenOk
                 | FaultKind::LoadErrorThenOkStartEnd
-                | FaultKind::LoadWarnErrorWarnOk),
+                | FaultKind::LoadWarnErrorWarnOk
+                | FaultKind::NoAck
+                | FaultKind::LoadEmptyResults
+                | FaultKind::LoadWarningNoOk
+                | FaultKind::LoadShape(_)),
             ) => {
                 record.positive_reply = false;
                 if is_load {
@@ -247,12 +318,33 @@ impl FakeJunos {
                         }
                         FaultKind::LoadErrorThenOk => format!("{}<ok/>\n", e("error")),
                         FaultKind::LoadErrorThenOkStartEnd => format!("{}<ok></ok>\n", e("error")),
+                        FaultKind::NoAck => "<load-error-count>0</load-error-count>\n".to_string(),
+                        FaultKind::LoadEmptyResults => String::new(),
+                        FaultKind::LoadWarningNoOk => {
+                            format!("{}<load-error-count>1</load-error-count>\n", e("warning"))
+                        }
+                        FaultKind::LoadShape(code) => load_shape(code)
+                            .into_iter()
+                            .map(|i| match i {
+                                ShapeItem::Warning => e("warning"),
+                                ShapeItem::Error => e("error"),
+                                ShapeItem::Ok => "<ok/>\n".to_string(),
+                                ShapeItem::OkStartEnd => "<ok></ok>\n".to_string(),
+                                ShapeItem::Count(n) => {
+                                    format!("<load-error-count>{n}</load-error-count>\n")
+                                }
+                            })
+                            .collect(),
                         _ => format!("{}{}{}<ok/>\n", e("warning"), e("error"), e("warning")),
                     };
                     out.push(reply_wrap(
                         &id,
                         &format!("<load-configuration-results>\n{inner}</load-configuration-results>"),
                     ));
+                } else if k == FaultKind::NoAck
+                    && !matches!(op.name.as_str(), "open-configuration" | "close-configuration")
+                {
+                    out.push(reply_wrap(&id, ""));
                 } else {
                     out.push(rpc_error(&id, "injected fault"));
                 }
